@@ -35,6 +35,8 @@ func main() {
 		cmdHistory(*seed, *n, *out, *replay, *tier)
 	case "determinism":
 		cmdDeterminism(*seed, *n, *out, *replay, *tier)
+	case "outcodec":
+		cmdOutcodec(*seed, *n, *out, *replay, *tier)
 	case "agg":
 		cmdAgg(*seed, *n, *out, *replay, *kinds, *tier)
 	default:
